@@ -116,6 +116,51 @@ class RefEnv:
             return Cx(self.pool.weights[self.e])
         if isinstance(o, FormArgument):
             name = self._name(o)
+            pb = self.pool.opts.get(name, {}).get("pullback")
+            if ref and pb:
+                return self._piola(name, pb, tuple(comp), derivs)
+            return self._physical(name, tuple(comp), derivs)
+        if isinstance(o, GeometricQuantity):
+            return self._geometric(o, comp, derivs, side, ref)
+        raise KeyError(f"no reference-frame value for {type(o).__name__}")
+
+    def _piola(self, name, pb, comp, derivs):
+        """Reference value of a Piola-mapped field from its physical data (affine cell: J, K, detJ constant):
+             contravariant        f = J r / detJ           r = detJ K f
+             covariant            f = K^T r                r = J^T f
+             double contravariant f = J r J^T / detJ^2     r = detJ^2 K f K^T
+             double covariant     f = K^T r K              r = J^T f J
+             covariant-contravariant f = K^T r J^T / detJ  r = detJ J^T f K^T
+             L2                   f = r / detJ             r = detJ f
+        i.e. r[a(,b)] = sum L[a][i] f[i(,j)] R[b][j]."""
+        J = [[Fraction(x) for x in row] for row in self.J]
+        det = J[0][0] * J[1][1] - J[0][1] * J[1][0]
+        K = [[J[1][1] / det, -J[0][1] / det], [-J[1][0] / det, J[0][0] / det]]
+        JT = [[J[i][a] for i in range(2)] for a in range(2)]
+        dK = [[det * K[a][i] for i in range(2)] for a in range(2)]
+        if pb == "l2":
+            return Cx(det) * self._physical(name, comp, derivs)
+        L, R = {
+            "contravariant": (dK, None),
+            "covariant": (JT, None),
+            "double_contravariant": (dK, dK),
+            "double_covariant": (JT, JT),
+            "covariant_contravariant": (JT, dK),
+        }[pb]
+        tot = Cx(0)
+        if R is None:
+            (a,) = comp
+            for i in range(2):
+                tot = tot + Cx(L[a][i]) * self._physical(name, (i,), derivs)
+            return tot
+        a, b = comp
+        for i in range(2):
+            for j in range(2):
+                tot = tot + Cx(L[a][i]) * Cx(R[b][j]) * self._physical(name, (i, j), derivs)
+        return tot
+
+    def _physical(self, name, comp, derivs):
+        if True:
             p = self.pool
             if not derivs:
                 return p.values[self.e][name][comp]
@@ -144,7 +189,9 @@ class RefEnv:
                         tot = tot + p.d2[self.e][name][comp + (i, j)] * Cx(J[i][k]) * Cx(J[j][l])
                 return tot
             raise KeyError("third reference derivative")
-        if isinstance(o, GeometricQuantity):
+
+    def _geometric(self, o, comp, derivs, side, ref):
+        if True:
             tname = type(o).__name__
             try:
                 return self.cell.terminal(o, comp, derivs, side, ref)
@@ -158,7 +205,6 @@ class RefEnv:
                     raise
                 sh, flat = cv[tname]
                 return sv_to_cx(flat[comps(sh).index(tuple(comp))])
-        raise KeyError(f"no reference-frame value for {type(o).__name__}")
 
     def _name(self, o):
         for t, (name, _) in zip(self.w.terms, self.pool.terminals):
